@@ -164,4 +164,89 @@ theorem flatten_length_uniform {α} (k : Nat) (rows : List (List α)) (h : ∀ r
     have hrs : ∀ r ∈ rs, r.length = k := fun x hx => h x (by simp [hx])
     simp [ih hrs, hr, Nat.succ_mul]; omega
 
+/-! ### `overlay`: `old[mask] = xs` (the in-place assignment of `MaskedImage._from_vector_inplace`) -/
+
+theorem overlay_length {α} (m : List Bool) (old xs : List α) (h : old.length = m.length) :
+    (overlay m old xs).length = m.length := by
+  induction m generalizing old xs with
+  | nil => cases old <;> simp_all [overlay]
+  | cons b bs ih =>
+    cases old with
+    | nil => simp at h
+    | cons o os =>
+      simp only [List.length_cons, Nat.add_right_cancel_iff] at h
+      cases b
+      · simp [overlay, ih os xs h]
+      · cases xs <;> simp [overlay, ih os _ h]
+
+theorem maskFilter_overlay {α} (m : List Bool) (old xs : List α) (h : old.length = m.length)
+    (hx : xs.length = countTrue m) : maskFilter (overlay m old xs) m = xs := by
+  induction m generalizing old xs with
+  | nil => cases xs <;> cases old <;> simp_all [countTrue, overlay, maskFilter]
+  | cons b bs ih =>
+    cases old with
+    | nil => simp at h
+    | cons o os =>
+      simp only [List.length_cons, Nat.add_right_cancel_iff] at h
+      cases b
+      · simp [countTrue] at hx
+        simp [overlay, maskFilter, ih os xs h hx]
+      · cases xs with
+        | nil => simp [countTrue] at hx; omega
+        | cons x xs =>
+          simp [countTrue] at hx
+          simp [overlay, maskFilter, ih os xs h (by omega)]
+
+/-- outside the mask the old value stays -/
+theorem overlay_false {α} (m : List Bool) (old xs : List α) (p : Nat) (h : old.length = m.length)
+    (hp : m[p]? = some false) : (overlay m old xs)[p]? = old[p]? := by
+  induction m generalizing old xs p with
+  | nil => simp at hp
+  | cons b bs ih =>
+    cases old with
+    | nil => simp at h
+    | cons o os =>
+      simp only [List.length_cons, Nat.add_right_cancel_iff] at h
+      cases p with
+      | zero =>
+        simp only [List.getElem?_cons_zero, Option.some.injEq] at hp
+        subst hp; simp [overlay]
+      | succ p =>
+        simp only [List.getElem?_cons_succ] at hp
+        cases b
+        · simp [overlay, ih os xs p h hp]
+        · cases xs <;> simp [overlay, ih os _ p h hp]
+
+/-- under the mask the new value arrives, in raster order -/
+theorem overlay_true {α} (m : List Bool) (old xs : List α) (p : Nat) (h : old.length = m.length)
+    (hx : xs.length = countTrue m) (hp : m[p]? = some true) : (overlay m old xs)[p]? = xs[rank m p]? := by
+  induction m generalizing old xs p with
+  | nil => simp at hp
+  | cons b bs ih =>
+    cases old with
+    | nil => simp at h
+    | cons o os =>
+      simp only [List.length_cons, Nat.add_right_cancel_iff] at h
+      cases p with
+      | zero =>
+        simp only [List.getElem?_cons_zero, Option.some.injEq] at hp
+        subst hp
+        cases xs with
+        | nil => simp [countTrue] at hx; omega
+        | cons x xs => simp [overlay, rank]
+      | succ p =>
+        simp only [List.getElem?_cons_succ] at hp
+        cases b
+        · simp [countTrue] at hx
+          simp [overlay, rank, ih os xs p h hx hp]
+        · cases xs with
+          | nil => simp [countTrue] at hx; omega
+          | cons x xs =>
+            simp [countTrue] at hx
+            simp [overlay, rank, Nat.add_comm 1, ih os xs p h (by omega) hp]
+
+theorem zipWith_length_eq {α β γ} (f : α → β → γ) (l : List α) (r : List β) (h : l.length = r.length) :
+    (List.zipWith f l r).length = l.length := by
+  simp [List.length_zipWith, h]
+
 end MenpoModel.C05
